@@ -141,7 +141,14 @@ func failed(r string) bool {
 // compareResult checks the call's own result class.
 func (r *replayer) compareResult(w *World, path []Action, a *Action, res Result) {
 	r.rep.Comparisons++
-	if res.R != a.R {
+	sameClass := res.R == a.R
+	if a.A == "RemoveNode" && a.R == "closeerr" && res.R == "ok" {
+		// the model lets the Close of this id fail; the object registered last may be one that has no Close at all
+		if o, ok := w.objs[key(a.N, w.cur[a.N])]; ok && !o.canClose {
+			sameClass = true
+		}
+	}
+	if !sameClass {
 		props := []string{}
 		switch a.A {
 		case "RegisterPipeline":
